@@ -686,7 +686,11 @@ def _ordered_dict(interp, args, kwargs):
 # ============================================================================= native attribute models
 
 def _list_method(rt, interp, lst, name):
+    if name in ("append", "extend", "insert", "reverse", "pop"):
+        rt.note_write(lst) if False else None
+
     def append(i, a, k):
+        rt.note_write(lst)
         lst.append(a[0])
 
     def extend(i, a, k):
@@ -738,6 +742,7 @@ def _dict_method(rt, interp, d, name):
     def setdefault(i, a, k):
         idx = rt.dict_find(i, d, a[0])
         if idx is None:
+            rt.note_write(d)
             d.pairs.append([a[0], a[1] if len(a) > 1 else None])
             return d.pairs[-1][1]
         return d.pairs[idx][1]
@@ -748,6 +753,7 @@ def _dict_method(rt, interp, d, name):
             if len(a) > 1:
                 return a[1]
             i.raise_py("KeyError", a[0])
+        rt.note_write(d)
         return d.pairs.pop(idx)[1]
 
     def update(i, a, k):
@@ -766,6 +772,7 @@ def _dict_method(rt, interp, d, name):
 
 def _set_method(rt, interp, s, name):
     def add(i, a, k):
+        rt.note_write(s)
         if isinstance(s, PSet):
             s.items.append(a[0])
         else:
